@@ -27,7 +27,13 @@ NodeOK(d, n, m) ==
   LET op == Op(d, n) IN
   /\ m.op = KindOf(op)
   /\ Len(m.inputs) = ModelIn(op) /\ Len(m.outputs) = ModelOut(op)          \* exactly the value ports of the signature
-  /\ ToSetM(m.metakeys) = ToSetM(d.metakeys[n + 1])                       \* node metadata is carried over
+  /\ ToSetM(m.metakeys) = ToSetM(d.metakeys[n + 1])                       \* node metadata is carried over (entries "key=json value")
+  /\ (op.op = "LoadConstant" => m.constterm = d.constterms[n + 1])        \* a load inlines the value of ITS constant (printed term)
+  /\ (op.op \in {"FuncDefn", "FuncDecl"} =>                                \* the symbol has the function's type parameters, and exactly
+        /\ m.nparams = Len(op.signature.params)                              \* the copyable type parameters carry a core.nonlinear constraint
+        /\ ToSetM(m.nonlinear) = {k - 1 : k \in {j \in 1..Len(op.signature.params) :
+                                                  op.signature.params[j].tp = "Type" /\ op.signature.params[j].b = "C"}}
+        /\ Len(m.nonlinear) = Cardinality(ToSetM(m.nonlinear)))
   /\ CASE HasInner(op) -> Len(m.regions) = 1 /\ DfgRegionOK(d, n, m.regions[1])
        [] op.op = "Conditional" -> /\ Len(m.regions) = Len(Children(d, n))
                                    /\ \A k \in 1..Len(m.regions) : DfgRegionOK(d, Children(d, n)[k], m.regions[k])   \* cases in order
@@ -137,7 +143,7 @@ NodeHintsOK(d, n, m) ==
 OrderHints(d, exp) == \A k \in 1..Len(exp.children) : NodeHintsOK(d, Exported(d, 0)[k], exp.children[k])
 
 ExportFailing(d, exp) ==
-  IF ~RegionsMirrorHierarchy(d, exp) THEN {"RegionsMirrorHierarchy/PortsAreValuePorts/MetadataCarried"}
+  IF ~RegionsMirrorHierarchy(d, exp) THEN {"RegionsMirrorHierarchy/PortsAreValuePorts/MetadataCarried/SymbolParams/ConstInlined"}
   ELSE (IF LinkPartition(d, exp) THEN {} ELSE {"LinkPartition"}) \cup (IF Hyperedge(d, exp) THEN {} ELSE {"Hyperedge"})
        \cup (IF SymbolsResolve(d, exp) THEN {} ELSE {"SymbolsResolve"}) \cup (IF OrderHints(d, exp) THEN {} ELSE {"OrderHints"})
 =============================================================================
